@@ -60,19 +60,11 @@ func (p *flowProto) genTrunc(r *rand.Rand, n int, w *bufio.Writer) {
 			}
 			var body []byte
 			for j, nr := 0, 1+r.Intn(4); j < nr; j++ {
-				var rb []byte
-				for k := 0; k < 20; k++ { // records must be longer than 4 octets (K2)
-					rb, _ = p.genRecord(r, t)
-					if len(rb) > 4 {
-						break
-					}
-				}
-				if len(rb) <= 4 {
-					rb = append(rb, make([]byte, 5-len(rb))...) // never reached with the wf templates, keeps the case harmless
-				}
+				rb, _ := p.genRecord(r, t) // any positive length (wf templates have no zero-length field)
 				body = append(body, rb...)
 			}
-			body = append(body, make([]byte, r.Intn(4))...)
+			// set padding: shorter than the shortest record of the template (up to 7 octets)
+			body = append(body, make([]byte, r.Intn(min(minRecLen(p, t), 8)))...)
 			sets = append(sets, cat(be16(t.id), be16(4+len(body)), body))
 		}
 		_ = cfg
